@@ -21,7 +21,7 @@ def slice_def(u, name, tier):
     """-> dict(calls, follow0, follow, maxlen, init, strict, confl_prop)"""
     q = tier == "quick"
     if name == "samefile":            # C05: every order, every prefix, repetitions (idempotence)
-        tys = SAMEFILE + ([] if q else ["Al<Leaf>"])
+        tys = SAMEFILE + ["Al<Leaf>"]
         calls = [u.call("export", t, "default") for t in tys]
         f0, f = exportlib.free_alphabet(calls)
         return dict(calls=calls, follow0=f0, follow=f, maxlen=4 if q else 5, init="empty", strict=True, confl="C05")
@@ -31,6 +31,11 @@ def slice_def(u, name, tier):
         return dict(calls=calls, follow0=f0, follow=f, maxlen=3 if q else 5, init="empty", strict=True, confl="C05")
     if name == "samefile_abs":        # C05 with an absolute export directory and two spellings of the file in the attributes
         calls = [u.call("export", t, "abs") for t in ["Alpha", "AlD", "Al1", "Beta", "Al2"]] + [u.call("export_all_to", t, "abs") for t in ["AlD", "Al1"]]
+        f0, f = exportlib.free_alphabet(calls)
+        return dict(calls=calls, follow0=f0, follow=f, maxlen=3 if q else 4, init="empty", strict=True, confl="C05")
+    if name == "underscore":          # names that agree up to `_` / `$`, next to names that are prefixes of them
+        tys = ["Al_a", "Al_b", "AlDollar", "Al1", "Alpha"] + ([] if q else ["Al<i32>", "Al2"])
+        calls = [u.call("export", t, "default") for t in tys] + [u.call("export_all", "Al_b", "default")]
         f0, f = exportlib.free_alphabet(calls)
         return dict(calls=calls, follow0=f0, follow=f, maxlen=3 if q else 4, init="empty", strict=True, confl="C05")
     if name == "imports":             # C05: overlapping and disjoint import sets, several names from one other shared file
